@@ -980,7 +980,8 @@ def ops_eval(ctx, R):
             f_ = m[op]
             mtp = [p_ for p_ in f_.params if "matchtype" in p_.lower() or p_ == "match_type"]
             cmt = [p_ for p_ in (R.create.params if R.create is not None else []) if "matchtype" in p_.lower() or p_ == "match_type"]
-            if len(mtp) != 1 or len(cmt) != 1 or f_.params[1:].index(mtp[0]) != len(argv) - 1:
+            # (the arguments are given by position, in the documented order: ..., conditions, actions, match type)
+            if len(mtp) != 1 or len(cmt) != 1:
                 continue
             keep.pop("created_with", None)
             got_ = run(op, *argv)
